@@ -777,8 +777,11 @@ func history(r *c.Rng, auth *c.FakeAuth, worlds []*world, linear bool, maxLen in
 	n := 2 + r.Intn(maxLen-1)
 	var steps []stepObs
 	outage, shape, outSt := 0, 0, 503
+	var outageStart int64
 	allXHR := r.Chance(0.25) // a single-page application: every request of the history is a background (XHR) call
-	for i := 0; i < n; i++ {
+	// a persistent outage is walked until it has lasted longer than the grace TTL, also past the drawn history length
+	persistent := func() bool { return outage > 0 && shape >= 3 && shape <= 5 }
+	for i := 0; i < n || (persistent() && i < n+10); i++ {
 		if outage > 0 && shape >= 3 && shape <= 5 {
 			// a persistent outage walked across the grace boundary in validity-period-sized strides
 			vnow += []int64{660, 660, 1860, 300}[r.Intn(4)] * sec
@@ -835,6 +838,9 @@ func history(r *c.Rng, auth *c.FakeAuth, worlds []*world, linear bool, maxLen in
 				a.RefreshStatus, a.ValidateStatus, a.ProfileStatus = st, st, st
 			}
 			outage--
+			if shape >= 3 && shape <= 5 && vnow-outageStart > (w.G+1500)*sec {
+				outage = 0
+			}
 		} else {
 			a = genAns(r, pOK)
 			if r.Chance(0.15) {
@@ -842,7 +848,8 @@ func history(r *c.Rng, auth *c.FakeAuth, worlds []*world, linear bool, maxLen in
 				shape = r.Intn(11)
 				outSt = []int{429, 503}[r.Intn(2)]
 				if shape >= 3 && shape <= 5 {
-					outage = 3 + r.Intn(6)
+					outage = 99
+					outageStart = vnow
 				}
 			}
 		}
